@@ -18,7 +18,7 @@ OWN_TRAIN = {"thrialpha", "lrsched", "applied", "selok", "w1zero", "groupsok", "
 OWN_PATH = {"flags_sel"}
 
 
-def sparse_models(rnd, d):
+def sparse_models(rnd, d, force=None):
     from gemclus.sparse import SparseLinearModel, SparseLinearMMD, SparseLinearMI, SparseMLPModel, SparseMLPMMD
     g = rnd.choice([None, None, [[0, 1]], [[0, 2], [1]] if d >= 3 else [[0, 1]], [[0], [1]], [list(range(d))],
                     [[2, 0], [1]] if d >= 3 else [[1, 0]], [[1], [2, 0]] if d >= 3 else [[1], [0]], [[d - 1]]])
@@ -27,6 +27,11 @@ def sparse_models(rnd, d):
                   batch_size=rnd.choice([None, 2, 3]), random_state=rnd.randint(0, 9), alpha=alpha)
     kind = rnd.choice(["SparseLinearModel", "SparseLinearMMD", "SparseLinearMI", "SparseMLPModel", "SparseMLPMMD"])
     dyn = rnd.random() < 0.25
+    if force is not None:              # the covering set: every estimator x (no groups, groups) x (sgd, adam) with a positive penalty
+        kind, grouped, solver = force
+        g = None if not grouped else rnd.choice([[[0, 1]], [[0, 2], [1]] if d >= 3 else [[0, 1]], [[2, 0], [1]] if d >= 3 else [[1, 0]]])
+        common.update(solver=solver, alpha=rnd.choice([0.01, 0.3, 2.0]))
+        alpha = common["alpha"]
     if kind == "SparseLinearModel":
         m = SparseLinearModel(gemini=rnd.choice(["mmd_ova", "tv_ova", "hellinger_ovo", "wasserstein_ova"]), groups=g, dynamic=dyn, **common)
     elif kind == "SparseLinearMMD":
@@ -57,13 +62,16 @@ def run(tier):
         pass
     ttraces, tmeta, ptraces, pmeta = [], [], [], []
     nfit, npath = (40, 24) if tier == "quick" else (300, 150)
+    forced = [(k_, g_, s_) for k_ in ("SparseLinearModel", "SparseLinearMMD", "SparseLinearMI", "SparseMLPModel", "SparseMLPMMD")
+              for g_ in (False, True) for s_ in ("sgd", "adam")]
+    nfit += len(forced)
     for i in range(nfit + npath):
         n, d = rnd.choice([(6, 3), (7, 4)])
         X = np.array([[rnd.gauss(0, 1) for _ in range(d)] for _ in range(n)])
         X[: n // 2, 0] += 2.5
         with warnings.catch_warnings():
             warnings.simplefilter("ignore")
-            kind, m, desc = sparse_models(rnd, d)
+            kind, m, desc = sparse_models(rnd, d, force=forced[i] if i < len(forced) else None)
             if i < nfit:
                 ev, err = train.record_fit(m, X, None)
                 desc["call"] = "fit"
